@@ -1,12 +1,14 @@
 //! One module per property: alphabet + bound + oracle.
 pub mod common;
 pub mod selfcheck;
+pub mod c01;
 pub mod c12;
 
 use super::explore::Ctx;
 
 pub fn run(prop: &str, ctx: &mut Ctx) -> bool {
     match prop {
+        "C01" => c01::run(ctx),
         "C12" => c12::run(ctx),
         _ => return false,
     }
